@@ -274,7 +274,9 @@ namespace verif_control {
 struct Claim {
   int owner = -1;
   int other = -1;
+  int payload = 0;
 };
+void claim_register(int id, int *data);
 bool claim_ok(Claim *c, int id) {
   if (c->owner >= 0) return false;
   c->owner = id;
@@ -294,6 +296,17 @@ bool claim_weak_bad(Claim *c, int id) {
 }
 bool claim_missing_bad(Claim *c, int id) {
   c->owner = id;
+  return true;
+}
+// the data is handed to a new decoder and nobody records (or checks) who owns it
+bool claim_data_unowned_bad(Claim *c, int id) {
+  claim_register(id, &c->payload);
+  return true;
+}
+bool claim_data_ok(Claim *c, int id) {
+  if (c->owner >= 0) return false;
+  c->owner = id;
+  claim_register(id, &c->payload);
   return true;
 }
 }  // namespace verif_control
